@@ -135,6 +135,7 @@ Hstartbitread(int32 file_id, uint16 tag, uint16 ref)
             return FAIL;                            /* EOF? somebody pulled the rug out from under us! */
         bitfile_rec->buf_read = (int)n;             /* keep track of the number of bytes in buffer */
         bitfile_rec->bytep    = bitfile_rec->bytea; /* set to the beginning of the buffer */
+        bitfile_rec->bytez    = bitfile_rec->bytea + n; /* the buffer ends with the bytes read */
     }                                               /* end if */
     else {
         bitfile_rec->bytep    = bitfile_rec->bytez; /* set to the end of the buffer to force read */
@@ -467,7 +468,7 @@ Hbitread(int32 bitid, int count, uint32 *data)
     while (count >= (int)BITNUM) {
         if (bitfile_rec->bytep == bitfile_rec->bytez) {
             n = Hread(bitfile_rec->acc_id, BITBUF_SIZE, bitfile_rec->bytea);
-            if (n == FAIL) { /* EOF */
+            if (n <= 0) { /* EOF: Hread returns 0 bytes at the end of the element */
                 bitfile_rec->count =
                     0;     /* make certain that we don't try to access the file->bits information */
                 *data = b; /* assign the bits read in */
@@ -489,7 +490,7 @@ Hbitread(int32 bitid, int count, uint32 *data)
     if (count > 0) {
         if (bitfile_rec->bytep == bitfile_rec->bytez) {
             n = Hread(bitfile_rec->acc_id, BITBUF_SIZE, bitfile_rec->bytea);
-            if (n == FAIL) { /* EOF */
+            if (n <= 0) { /* EOF: Hread returns 0 bytes at the end of the element */
                 bitfile_rec->count =
                     0;     /* make certain that we don't try to access the file->bits information */
                 *data = b; /* assign the bits read in */
